@@ -19,7 +19,7 @@ from vf.xmodel import Schema, Rop, Shadow, Bound
 SHARDS = {'quick': 16, 'thorough': 64}
 TIMEOUT = {'quick': 1500, 'thorough': 7200}
 MUST_HIT = ['Call.python-function', 'Call.python-bridge', 'Call.python-class-operation',
-            'Call.python-instance-operation', 'Call.derived-attribute', 'Call.derived-attribute-outside-state', 'Call.enumerator', 'Call.constant',
+            'Call.builtin-external-entity', 'Call.legacy-keyword-bridge', 'Call.legacy-keyword-transform', 'Call.python-instance-operation', 'Call.derived-attribute', 'Call.derived-attribute-outside-state', 'Call.enumerator', 'Call.constant',
             'Call.nested', 'Call.recursive', 'Call.bare-return', 'Call.no-return', 'Call.in-where-clause',
             'Call.in-loop-condition', 'Scope.caller-variable-kept', 'State.compared']
 MUST_REACH = ['bridgepoint/ooaofooa.py:mk_function', 'bridgepoint/ooaofooa.py:mk_bridge',
@@ -52,7 +52,7 @@ LEVEL_TEXT = ('Random exploration with a reference evaluator: generated call gra
 LEVEL_NOTE = 'Trusted: vf/oalsem.py evaluator with the call extension of vf/checks/c15.py; vf/bpsynth.py row synthesis.'
 TECHNIQUE = 'runtime monitoring: reference-model oracle (independent evaluator with call semantics) compared with Python-level and OAL-level invocation results'
 
-TYNAME = {INT: 'integer', STR: 'string', BOOL: 'boolean', None: 'void'}
+TYNAME = {INT: 'integer', STR: 'string', BOOL: 'boolean', None: 'void', 'real': 'real'}
 
 
 class Mismatch(Exception):
@@ -95,6 +95,9 @@ def call_node(e, args, target=None):
     return oalsem.S(node, ('call', e.kind, e.uid, sem_items, target.sem if target is not None else None))
 
 
+LEGACY = {}
+
+
 class ModelGen(object):
     def __init__(self, rng, impure_logic=False, case='lower'):
         self.rng = rng
@@ -107,7 +110,8 @@ class ModelGen(object):
         self.enum = ('Color', ['Red', 'Green', 'Blue', 'Cyan', 'Magenta'][:rng.randint(3, 5)])
         rng.shuffle(self.enum[1])
         self.consts = [('C_INT', INT, rng.choice((0, 3, 42))), ('C_STR', STR, rng.choice(('hello', 'x'))),
-                       ('C_BOOL', BOOL, rng.random() < 0.5)]
+                       ('C_BOOL', BOOL, rng.random() < 0.5),
+                       ('C_REAL', 'real', rng.choice((2.5, 0.125, 10.0, -3.75)))]   # only read from Python
         self.vcount = 0
 
     def make_elems(self):
@@ -290,7 +294,11 @@ class ModelGen(object):
                 if cands:
                     c = r.choice(cands)
                     node = call_node(c, self.args(c, e, rank, 1, locals_=locals_))
-                    prefix = None
+                    # the statement keywords of the old syntax: bridge EE::f(..), transform KL::op(..)
+                    prefix = {'b': 'bridge', 'cop': 'transform'}.get(c.kind) if r.random() < 0.4 else None
+                    if prefix:
+                        node.alt_cls = ('BridgeInvocationNode', 'ClassInvocationNode')
+                        LEGACY[prefix] = LEGACY.get(prefix, 0) + 1
                     stmts.append(oalsem.S(om.invoke(node, prefix), ('invoke', node.sem)))
             elif k < 0.8:
                 # create an instance, set attributes, call an instance operation on it
@@ -303,10 +311,13 @@ class ModelGen(object):
                     if c.ret is not None:
                         v = self.fresh()
                         if v not in locals_ or locals_[v] == c.ret:
-                            stmts.append(oalsem.assign(oalsem.var(v), node))
+                            tgt = oalsem.var(v)
+                            prefix = 'transform' if r.random() < 0.4 else None
+                            stmts.append(oalsem.S(om.assign(tgt, node, prefix=prefix), ('assign', tgt.sem, node.sem)))
                             locals_[v] = c.ret
                     else:
-                        stmts.append(oalsem.S(om.invoke(node), ('invoke', node.sem)))
+                        stmts.append(oalsem.S(om.invoke(node, 'transform' if r.random() < 0.4 else None),
+                                              ('invoke', node.sem)))
             elif k < 0.9:
                 # a call inside a where clause
                 cands = [x for x in self.elems[:rank] if x.ret == INT and x.kind != 'iop' and x.pure
@@ -606,11 +617,79 @@ def run_case(ctx, rng):
         ctx.count('invocations')
 
 
+def builtin_entities(ctx, rng):
+    '''
+    External entities with the key letters TIM, LOG, PERSIST, NVS are served by bridgepoint.external_entities:
+    their bridges are invoked from Python and from OAL with the modeled parameter names; a date put
+    together by name reads back component by component.
+    '''
+    import contextlib
+    import io
+    from bridgepoint import ooaofooa
+    parts = dict(year=rng.randint(1990, 2030), month=rng.randint(1, 12), day=rng.randint(1, 28),
+                 hour=rng.randint(0, 23), minute=rng.randint(0, 59), second=rng.randint(0, 59))
+    names = sorted(parts)
+    rng.shuffle(names)
+    args = ', '.join('%s: %d' % (n, parts[n]) for n in names)
+    d = bp.Diagram()
+    d.udts = [('date', 'inst<Mapping>', 'pkg')]
+    getters = ['get_' + n for n in parts]
+    d.ees = [('Time', 'TIM', [bp.Callable_('create_date', 'date', [(n, 'integer') for n in sorted(parts)], '')] +
+              [bp.Callable_(g, 'integer', [('date', 'date')], 'return 0 - 1;') for g in getters], 'pkg'),
+             ('Logging', 'LOG', [bp.Callable_('LogInfo', 'void', [('message', 'string')], ''),
+                                 bp.Callable_('LogInteger', 'void', [('message', 'integer')], ''),
+                                 bp.Callable_('LogReal', 'void', [('message', 'string'), ('r', 'real')], '')], 'pkg'),
+             ('Persistence', 'PERSIST', [bp.Callable_('commit', 'integer', [], 'return 77;')], 'pkg'),
+             ('Non Volatile', 'NVS', [bp.Callable_('version', 'integer', [('first', 'integer'), ('second', 'integer')],
+                                                   'return 78;')], 'pkg')]
+    for n in parts:
+        d.functions.append((bp.Callable_('probe_' + n, 'integer', [],
+                                         'd = TIM::create_date(%s); return TIM::get_%s(date: d);' % (args, n)), 'pkg'))
+    d.functions.append((bp.Callable_('probe_log', 'integer', [('n', 'integer')],
+                                     'LOG::LogInfo(message: "probe"); LOG::LogInteger(message: param.n); '
+                                     'LOG::LogReal(r: 1.5, message: "r"); x = PERSIST::commit(); '
+                                     'y = NVS::version(second: 2, first: 1); return param.n + 1;'), 'pkg'))
+    loader = ooaofooa.ModelLoader(load_globals=True)
+    loader.input(bp.build(d).rows.text(rng))
+    comp = loader.build_component()
+    out = io.StringIO()
+    try:
+        with contextlib.redirect_stdout(out):
+            tim = comp.find_symbol('TIM')
+            date = tim.create_date(**parts)
+            for n, v in parts.items():
+                ctx.hit('Call.builtin-external-entity')
+                got = getattr(tim, 'get_' + n)(date=date)
+                if got != v:
+                    raise Mismatch('builtin-entity/by-name-binding', 'TIM.get_%s(TIM.create_date(%r)) is %r' % (n, parts, got))
+                got = comp.find_symbol('probe_' + n)()
+                if got != v:
+                    raise Mismatch('builtin-entity/by-name-binding', 'OAL: TIM::create_date(%s) then TIM::get_%s gives %r'
+                                   % (args, n, got))
+            k = rng.randint(0, 9)
+            if comp.find_symbol('probe_log')(n=k) != k + 1:
+                raise Mismatch('builtin-entity/invocation', 'the body invoking LOG / PERSIST / NVS bridges did not '
+                               'complete with its own return value')
+    except Mismatch:
+        raise
+    except Exception as ex:
+        raise Mismatch('builtin-entity/%s' % type(ex).__name__, 'invoking built-in external entity bridges by '
+                       'their modeled parameter names raised %s: %s' % (type(ex).__name__, ex))
+    ctx.case(('builtin', tuple(sorted(parts.items())), tuple(names)), True)
+
+
 def run(ctx):
     rng = ctx.rng
+    for _ in range(ctx.share(64 if ctx.tier == 'quick' else 1600)):
+        try:
+            builtin_entities(ctx, rng)
+        except Mismatch as e:
+            ctx.violation(e.key, e.what, case=dict(what=e.what))
     for _ in range(ctx.share(480 if ctx.tier == 'quick' else 20000)):
         try:
             run_case(ctx, rng)
             ctx.count('models')
         except Mismatch as e:
             ctx.violation(e.key, e.what, case=dict(what=e.what))
+    for k, v in LEGACY.items():
+        ctx.hit('Call.legacy-keyword-' + k, v)
